@@ -166,7 +166,13 @@ def run(tier, seed=0, shard=(0, 1)):
                   snake_r >> st @ Id(x.r) >> Id(x.r) @ Cup(x, x.r),
                   snake_l @ Id(x) >> f @ f >> snake_l @ snake_l,
                   Id(x) @ snake_r >> f @ g >> Id(x) @ snake_r >> Cup(x, x.r)]
-        Fw = make_functor(gens + [wide, narrow, wide2, st, Box('k', x, x), Box('e3', q_ @ q_ @ q_, x.r)], seed)
+        # two EQUAL caps: the first one is not part of a snake (its legs feed a box / reach the codomain), the second one is
+        g2, m2 = Box('g2', x.r @ x, y), Box('m2', y @ x, y)
+        rounds += [Cap(x.r, x) @ Id(x) >> g2 @ Id(x) >> Id(y @ x) @ Cap(x.r, x) >> Id(y) @ Cup(x, x.r) @ Id(x) >> m2,
+                   Cap(x.r, x) @ Id(x) >> Id(x.r @ x) @ snake_l >> g2 @ Id(x) >> m2,
+                   Cap(x.r, x) @ Cap(x.r, x) @ Id(x.r) >> g2 @ Id(x.r) @ Cup(x, x.r) >> Box('m3', y @ x.r, y)]
+        Fw = make_functor(gens + [wide, narrow, wide2, st, Box('k', x, x), Box('e3', q_ @ q_ @ q_, x.r), g2, m2,
+                                  Box('m3', y @ x.r, y)], seed)
         for d in rounds:
             check(rep, d, Fw)
         # self-adjoint wires (rigid.PRO): a closed loop Cap >> Cup is a scalar (the dimension), not a snake
